@@ -84,7 +84,7 @@ class Prog(Scenario):
         env = dict(zip(names, vals))
         try:
             py = self.fn(*vals)
-        except ZeroDivisionError:
+        except (ZeroDivisionError, ValueError):
             return  # outside the function's domain
         try:
             sy = sym2z3.ev(expr, env)
@@ -95,7 +95,7 @@ class Prog(Scenario):
             ctx.note(f"harness cannot read the expression: {e}")
             ctx.true(f"expression readable by the harness ({e})", False, info=str(expr))
             return
-        except ZeroDivisionError:
+        except (ZeroDivisionError, ValueError):
             ctx.true("the expression is defined wherever the function is defined", False, info=str(expr))
             return
         ctx.eq("value of the translated expression = value of the function", sy, py, info=str(expr)[:200])
